@@ -14,8 +14,15 @@ Tie to the source:
        dense state (1e-9 relative).  MPO gates reach apply_gate_ in random PRESENTATIONS of the MpsMpoOBC object: rescaled
        (z*O, O*z, O/z, -O: modulus in O.factor), canonised / compressed with the norm dropped or accumulated in O.factor,
        sums and products of MPOs (direct-sum / fused virtual legs); the dense operator is tracked independently in NumPy.
+       Besides exponentials the circuits hold BARE operators without identity term (hopping term, n_a n_b, Sp_a Sm_b, local
+       projectors; MPOs without the identity term): their operator legs hold only some charge sectors of the local space.
+       They arrive as decompose_nn_gate of the fkron sum, as a two-site MPO (also along a longer path), as its two tensors,
+       or as a product with a trivial connecting leg; a gate whose dense operator annihilates the state must give the zero PEPS.
  (iii) `DoublePepsTensor.tensordot` vs tensordot of `fuse_layers()` (four corner pairings, both argument orders, all
-       allowed transpositions, operator and charge swaps, bra != ket) and `fuse_layers()` vs NumPy einsum for dense tensors.
+       allowed transpositions, operator and charge swaps, bra != ket) and `fuse_layers()` vs NumPy einsum for dense tensors;
+       then the SAME object lives on through a random order of set_operator_ (reset / composed), del_operator_,
+       add_charge_swaps_, del_charge_swaps_ and repetitions: after every step lazy tensordot == tensordot of fuse_layers()
+       == fuse_layers() of a new object built from the independently tracked operator and swaps (no state of earlier calls).
  (iv)  `fpeps.add` / `+` of PEPS vs the sum of the dense states.
 All oracle references are plain NumPy/SciPy; nothing of yastn's swap-gate logic is used in them.
 """
@@ -845,13 +852,20 @@ def gen_circuit(rng, cls, sym, dims, boundary, mode, depth):
                 b = (b[1], b[0])
             g = nn_gate_desc(rng, cls, sym, pm)
             g["sites"] = [list(b[0]), list(b[1])]
-        elif r < 0.75:  # two-element gate along a longer path (identities filled in)
+        elif r < 0.72:  # two-element gate along a longer path (identities filled in)
             k = rng.randint(3, min(4, len(sites))) if len(sites) >= 3 else 2
             paths = lattice_paths(geo, k)
             if not paths:
                 continue
             g = nn_gate_desc(rng, cls, sym, pm)
             g["sites"] = [list(s) for s in rng.choice(paths)]
+        elif r < 0.84:  # bare operator (no exponential, no identity term): local, or two elements on a bond / along a path
+            k = min(rng.choice([1, 2, 2, 3, 3, 4]), len(sites))
+            paths = lattice_paths(geo, k)
+            if not paths:
+                continue
+            g = {"g": "bare", "terms": bare_terms(rng, cls, sym, min(k, 2), prog["complex"]),
+                 "form": rng.choice(["svd", "mpo", "list", "product"]), "sites": [list(s) for s in rng.choice(paths)]}
         else:  # MPO gate on a path
             k = rng.randint(2, min(4, len(sites)))
             paths = lattice_paths(geo, k)
@@ -859,7 +873,8 @@ def gen_circuit(rng, cls, sym, dims, boundary, mode, depth):
                 continue
             g = {"g": "mpo", "terms": mpo_terms(rng, cls, sym, k), "form": rng.choice(["mpo", "mpo", "list"]),
                  "sites": [list(s) for s in rng.choice(paths)],
-                 "present": mpo_presentation(rng, cls, sym, k, prog["complex"])}
+                 "present": mpo_presentation(rng, cls, sym, k, prog["complex"]),
+                 "noid": rng.random() < (0.15 if mode == "aux" else 0.3)}   # the operator without the identity term
         gates.append(g)
     prog["gates"] = gates
     return prog
@@ -879,6 +894,40 @@ def nn_gate_desc(rng, cls, sym, pm):
     if kind == "tJ":
         return {"g": "tJ", "params": {n: pm(n != "step") for n in NPARAMS["tJ"]}}
     return {"g": "nn_exp", "step": pm(), "terms": generic_terms(rng, cls, sym, 2)}
+
+
+def bare_terms(rng, cls, sym, nsites, cplx_ok):
+    """terms [(amp[re,im], [(name,pos),…])] of an operator that is NOT an exponential and has no identity term: one or
+    two products of local operators (hopping term, density-density, spin flip, projector-like densities, …) of zero
+    total charge.  The operator legs of the tensors of such a gate typically hold only some charge sectors of the
+    local space."""
+    def amp():
+        z = [0.0, 0.0]
+        while abs(complex(*z)) < 0.2:
+            z = rand_param(rng, rng.choice(["real", "real", "complex", "imag"]) if cplx_ok else "real", 1.5)
+        return z
+    terms = []
+    for _ in range(rng.choice([1, 1, 1, 2])):
+        i, j = rng.sample([0, 1], 2)
+        sp, sp2 = rng.choice(species(cls)), rng.choice(species(cls))
+        if nsites == 1:
+            if cls == "spin12":
+                word = rng.choice([[("sp", 0), ("sm", 0)], [("sm", 0), ("sp", 0)], [("z", 0)]] + ([[("x", 0)]] if sym == "dense" else []))
+            elif cls == "spinless":
+                word = rng.choice([[("n", 0)], [("c", 0), ("cp", 0)]])
+            else:
+                word = rng.choice([[("n" + sp, 0)], [("Sz", 0)], [("c" + sp, 0), ("cp" + sp, 0)]]
+                                  + ([[("nu", 0), ("nd", 0)]] if cls == "spinful" else [])
+                                  + ([[("Sp", 0)]] if sym in ("Z2", "U1") else []))   # Sp carries no charge there
+        elif cls == "spin12":
+            word = rng.choice([[("sp", i), ("sm", j)], [("sp", i), ("sm", j)], [("z", i), ("z", j)], [("z", i)]]
+                              + ([[("x", i), ("x", j)]] if sym != "U1" else []))
+        else:
+            word = rng.choice([[("cp" + sp, i), ("c" + sp, j)], [("cp" + sp, i), ("c" + sp, j)],
+                               [("n" + sp, i), ("n" + sp2, j)], [("n" + sp, i)]]
+                              + ([[("Sp", i), ("Sm", j)], [("Sz", i), ("Sz", j)]] if cls != "spinless" else []))
+        terms.append([amp(), [list(w) for w in word]])
+    return terms
 
 
 def desc_to_gatecase(cls, sym, g):
@@ -935,13 +984,13 @@ def mpo_presentation(rng, cls, sym, k, cplx_ok):
     return steps
 
 
-def mpo_from_terms(ops, alg, cls, k, terms):
-    """identity + sum of terms on a k-chain: (real MPO from generate_mpo, independent NumPy JW matrix)."""
+def mpo_from_terms(ops, alg, cls, k, terms, identity=True):
+    """[identity +] sum of terms on a k-chain: (real MPO from generate_mpo, independent NumPy JW matrix)."""
     import yastn.tn.mps as mps
     words = [(complex(*a), [tuple(w) for w in word]) for a, word in terms]
-    M = np.eye(alg["d"] ** k, dtype=complex) + chain_op(alg, k, words)
+    M = (np.eye(alg["d"] ** k, dtype=complex) if identity else 0) + chain_op(alg, k, words)
     I = ops.I()
-    hterms = [mps.Hterm(1, [0], [I])]
+    hterms = [mps.Hterm(1, [0], [I])] if identity else []
     for a, word in terms:
         hterms.append(mps.Hterm(cplx(a), [p for _, p in word], [yop(ops, cls, n) for n, _ in word]))
     return mps.generate_mpo(mps.product_mpo(I, k), hterms), M
@@ -998,9 +1047,11 @@ def build_gate(ops, alg, cls, sym, g):
     import yastn.tn.fpeps as fpeps
     import yastn.tn.mps as mps
     sites = [tuple(s) for s in g["sites"]]
+    if g["g"] == "bare":
+        return build_bare_gate(ops, alg, cls, g, sites)
     if g["g"] == "mpo":
         k = len(sites)
-        O, M = mpo_from_terms(ops, alg, cls, k, g["terms"])
+        O, M = mpo_from_terms(ops, alg, cls, k, g["terms"], identity=not g.get("noid", False))
         # the operator is handed over in an arbitrary PRESENTATION of the MPO object (overall scalar kept in .factor,
         # canonical forms, compressed, sums / products of MPOs); the dense operator it represents is tracked in NumPy
         O, M = present_mpo(ops, alg, cls, k, O, M, g.get("present", []))
@@ -1027,6 +1078,80 @@ def build_gate(ops, alg, cls, sym, g):
     gate, _ = real_gate(ops, case)
     gate = gate._replace(sites=tuple(sites))
     acting = sites if nsites == 1 else [sites[0], sites[-1]]
+    return gate, M, acting
+
+
+class GateSplitMismatch(Exception):
+    pass
+
+
+def build_bare_gate(ops, alg, cls, g, sites):
+    """bare operator sum_k amp_k A_k B_k (no identity term) as a Gate, in one of the forms a user has at hand:
+    'svd'     decompose_nn_gate of the sum of fkron products,
+    'mpo'     two-site MPO from generate_mpo handed over as Gate.G (also along a longer path),
+    'list'    the two tensors of that MPO (gate_from_mpo),
+    'product' a single product A_0 B_1 with a trivial connecting leg, as EnvCTM.measure_nn builds it
+              (add_leg + swap_gate of the bra leg of A with the connecting leg).
+    The gate is used only if its two tensors, contracted over the connecting leg, are the intended dense operator."""
+    import yastn
+    import yastn.tn.fpeps as fpeps
+    import yastn.tn.mps as mps
+    from yastn.tn.fpeps._gates_auxiliary import gate_from_mpo
+    terms = g["terms"]
+    words = [(complex(*a), [tuple(w) for w in word]) for a, word in terms]
+    if len(sites) == 1:
+        M = chain_op(alg, 1, words)
+        T = None
+        for a, word in terms:
+            X = None
+            for name, _ in word:
+                X = yop(ops, cls, name) if X is None else X @ yop(ops, cls, name)
+            T = cplx(a) * X if T is None else T + cplx(a) * X
+        if not (1e-6 < float(np.abs(M).max()) and relerr(dense1(ops, T), M) <= 1e-12):
+            return None, None, None
+        return fpeps.Gate(G=(T,), sites=tuple(sites)), M, sites
+    M = chain_op(alg, 2, words)
+    acting = [sites[0], sites[-1]]
+    form = g["form"]
+    if form == "product" and not (len(terms) == 1 and len(terms[0][1]) == 2):
+        form = "svd"
+    I = ops.I()
+    if form == "svd":
+        O = None
+        for a, word in terms:
+            if len(word) == 2:
+                (n0, s0), (n1, s1) = word
+                X = yastn.fkron(yop(ops, cls, n0), yop(ops, cls, n1), sites=(s0, s1))
+            else:
+                (n0, s0), = word
+                X = yastn.fkron(yop(ops, cls, n0), I, sites=(s0, 1 - s0))
+            O = cplx(a) * X if O is None else O + cplx(a) * X
+        if not relerr(dense2(ops, O), M) <= 1e-12:   # fkron is not under test here
+            return None, None, None
+        gate = fpeps.gates.decompose_nn_gate(O)
+        G = gate.G
+        if not relerr(gate2_dense(ops, gate), dense2(ops, O)) <= TOL_ORACLE:
+            raise GateSplitMismatch(f"decompose_nn_gate: the two tensors do not recombine to the two-site operator, rel err {relerr(gate2_dense(ops, gate), dense2(ops, O)):.2e}")
+    elif form == "product":
+        (a, word), = terms
+        (n0, s0), (n1, s1) = word
+        A, B = yop(ops, cls, n0), yop(ops, cls, n1)
+        sign = 1
+        if s0 == 1:   # (A at site 1)(B at site 0) = +-(B at site 0)(A at site 1)
+            pa, pb = op_parity(alg, alg["ops"][n0]), op_parity(alg, alg["ops"][n1])
+            sign = (-1) ** sum(x * y for x, y in zip(pa, pb))
+            A, B = B, A
+        G = ((sign * cplx(a)) * A.add_leg(s=1, axis=2).swap_gate(axes=(1, 2)), B.add_leg(s=-1, axis=2))
+    else:
+        hterms = [mps.Hterm(cplx(a), [p_ for _, p_ in word], [yop(ops, cls, n_) for n_, _ in word]) for a, word in terms]
+        O = mps.generate_mpo(mps.product_mpo(I, 2), hterms)
+        G = tuple(gate_from_mpo(O))
+    gate = fpeps.Gate(G=tuple(G), sites=tuple(sites))
+    mscale = float(np.abs(M).max())
+    if not (1e-6 < mscale and relerr(gate2_dense(ops, gate) / mscale, M / mscale) <= 1e-10):
+        return None, None, None
+    if form == "mpo":
+        gate = fpeps.Gate(G=O, sites=tuple(sites))
     return gate, M, acting
 
 
@@ -1112,7 +1237,9 @@ def growth_ok(psi, geo, gate, d):
     if len(path) == 1:
         return True
     nb = len(path) - 1
-    if isinstance(gate.G, MpsMpoOBC):
+    if isinstance(gate.G, MpsMpoOBC) and gate.G.N == 2:
+        rs = [gate.G[0].get_shape(axes=2)] * nb
+    elif isinstance(gate.G, MpsMpoOBC):
         rs = [gate.G[n].get_shape(axes=2) for n in range(nb)]
     elif len(gate.G) == 2:
         rs = [gate.G[0].get_shape(axes=2)] * nb
@@ -1201,6 +1328,17 @@ def sum_leg_fusion_signature(psi, geo, exc):
     return False
 
 
+def operator_leg_coverage(ops, gate):
+    """'partial' if the ket leg of some tensor of the gate holds fewer charge sectors than the local space, else 'full'."""
+    from yastn.tn.mps import MpsMpoOBC
+    full = len(ops.space().t)
+    if isinstance(gate.G, MpsMpoOBC):
+        ns = [len(gate.G[n].get_legs(axes=1).t) for n in range(gate.G.N)]
+    else:
+        ns = [len(t.get_legs(axes=0).t) for t in gate.G]
+    return "partial" if min(ns) < full else "full"
+
+
 def drop_gate_history(gate):
     """the same gate with tensors that forget how their legs were built (direct sums / fusions)."""
     from yastn.tn.mps import MpsMpoOBC
@@ -1247,6 +1385,9 @@ def exec_circuit(ctx, prog, want_state=False):
             gate, M, acting = build_gate(ops, alg, cls, sym, g)
         except (CaseTimeout, MemoryError):
             raise
+        except GateSplitMismatch as e:   # the SVD splitting of part (i), here on an operator that is not an exponential
+            ctx.fail("oracle", "c11:gate:decompose", f"{tag}: gate {gi} ({g['g']}, terms {g.get('terms')}): {e}", case=dict(prog, gates=prog["gates"][:gi + 1]), concrete=True)
+            return None
         except Exception as e:
             # building a predefined gate is part (i); MPO generation is C07. Skip, but leave a trace.
             ctx.count(f"apply:gate-build-skipped:{g['g']}:{type(e).__name__}")
@@ -1262,13 +1403,20 @@ def exec_circuit(ctx, prog, want_state=False):
         for s0, s1 in zip(path, path[1:]):
             ctx.count(f"apply:bond:{geo.nn_bond_dirn(s0, s1)}:{'f-ordered' if geo.f_ordered(s0, s1) else 'f-reversed'}")
         ctx.count(f"apply:gate:{g['g']}:{len(path)}-site")
+        if g["g"] in ("mpo", "bare"):
+            ctx.count(f"apply:operator-legs:{g['g']}:{operator_leg_coverage(ops, gate)}")
+        if g["g"] == "bare" and len(path) > 1:
+            ctx.count(f"apply:bare-form:{g['form']}")
         if g["g"] == "mpo":
+            ctx.count("apply:mpo-identity-term:" + ("no" if g.get("noid") else "yes"))
             for st in g.get("present", []):
                 ctx.count(f"apply:mpo-present:{st['op']}" + (":normalize" if st.get("normalize") else ""))
             if g["form"] == "mpo":
                 ctx.count("apply:mpo-object:factor" + ("=1" if abs(float(gate.G.factor) - 1) < 1e-12 else "!=1"))
         summed = g["g"] == "mpo" and any(st["op"] == "add" for st in g.get("present", []))
         backup = psi.copy() if (summed and not sum_legs) else None
+        may_annihilate = g["g"] == "bare" or bool(g.get("noid"))
+        before = (psi.copy(), ref) if may_annihilate else None
         try:
             try:
                 psi.apply_gate_(gate)
@@ -1303,8 +1451,18 @@ def exec_circuit(ctx, prog, want_state=False):
         ref = apply_dense(alg, ref, M, [s2i[s] for s in acting])
         scale = np.abs(ref).max()
         if not np.isfinite(scale) or scale < 1e-200 or not scale > floor:
+            # the dense operator annihilates the dense state (up to round-off): so must the gate (the relative comparison
+            # below has no scale here; a PEPS without any block is the zero state)
             ctx.count("apply:degenerate-norm")
-            return None
+            wmax = float(np.abs(w).max()) if w.size else 0.0
+            if np.isfinite(floor) and not wmax <= floor:
+                ctx.fail("oracle", f"c11:apply:{g['g']}", f"{tag}: the dense gate {gi} ({g['g']} on {path}) annihilates the dense state (max |amplitude| "
+                         f"{scale:.2e}) but to_tensor() after apply_gate_ has max |amplitude| {wmax:.3e}", case=sub, concrete=True)
+                return None
+            if before is None:
+                return None
+            psi, ref = before   # an operator without identity term may annihilate the state: the circuit goes on without this gate
+            continue
         err = float(np.abs(w - ref).max() / scale) if w.shape == ref.shape else float("inf")
         ctx.extra["max_err_apply"] = max(ctx.extra.get("max_err_apply", 0.0), err if np.isfinite(err) else 1e300)
         ctx.evaluations += 1
@@ -1387,11 +1545,43 @@ DOUBLE_CONFIGS = [("U1", True), ("Z2", True), ("U1", False), ("dense", False), (
 
 def double_case(rng, quick):
     sym, fer = rng.choice(DOUBLE_CONFIGS)
-    return {"part": "double", "sym": sym, "fermionic": list(fer) if isinstance(fer, tuple) else fer,
+    case = {"part": "double", "sym": sym, "fermionic": list(fer) if isinstance(fer, tuple) else fer,
             "seed": rng.randrange(1 << 30), "dtype": rng.choice(["float64", "complex128"]),
             "same_bra": rng.random() < 0.25, "op": rng.choice([None, "c", "n"]),
             "swaps": rng.choice([[], [["k1"]], [["b4", "k1", "k2"]], [["b0", "k3"], ["k4"]]]),
             "trans": list(rng.choice(ALLOWED_TRANSPOSE)), "nvec": rng.choice([0, 1])}
+    case["life"] = double_life(rng, sym != "dense", rng.randint(2, 4), case["op"] is not None, bool(case["swaps"]) and sym != "dense")
+    return case
+
+
+SWAP_AXES = ["b0", "b1", "b2", "b3", "b4", "k0", "k1", "k2", "k3", "k4"]
+
+
+def double_life(rng, has_sym, nsteps, has_op, has_swaps):
+    """further life of the ONE DoublePepsTensor object of a case, after its first contractions: a random sequence of the
+    public mutators (set_operator_ with reset / composition, del_operator_, add_charge_swaps_, del_charge_swaps_) and of
+    plain repetitions; the object is contracted (lazily and fused) after every step.  Deleting is preferred when there is
+    something to delete, so that the orders set -> contract -> delete -> contract are frequent."""
+    steps = []
+    for _ in range(nsteps):
+        menu = ["set_op", "set_op", "set_op", "again"] + (["del_op"] * 4 if has_op else ["del_op"])
+        if has_sym:
+            menu += ["add_swaps", "add_swaps"] + (["del_swaps"] * 4 if has_swaps else ["del_swaps"])
+        do = rng.choice(menu)
+        st = {"do": do, "trans": list(rng.choice(ALLOWED_TRANSPOSE)), "corner": rng.randrange(6),
+              "order": rng.choice(["self-b", "b-self", "method"])}
+        if do == "set_op":
+            st.update(op=rng.choice(["n", "c", "cp"]), reset=rng.random() < (0.3 if has_op else 0.6))
+            has_op = True
+        elif do == "del_op":
+            has_op = False
+        elif do == "add_swaps":
+            st.update(axes=sorted(rng.sample(SWAP_AXES, rng.randint(1, 3))), neg=rng.random() < 0.4)
+            has_swaps = True   # (may cancel to zero: then del_swaps acts on an empty record, also a valid order)
+        elif do == "del_swaps":
+            has_swaps = False
+        steps.append(st)
+    return steps
 
 
 def eval_double_case(ctx, case):
@@ -1410,16 +1600,19 @@ def eval_double_case(ctx, case):
         return yastn.Leg(cfg, s=s, t=charges, D=D)
     if sym == "U1":
         ch = lambda: [(-1,), (0,), (1,)]
-        pch, unit = [(0,), (1,)], (1,)
+        pch, unit, mods = [(0,), (1,)], (1,), (0,)
     elif sym == "Z2":
         ch = lambda: [(0,), (1,)]
-        pch, unit = [(0,), (1,)], (1,)
+        pch, unit, mods = [(0,), (1,)], (1,), (2,)
     elif sym == "U1xU1xZ2":
         ch = lambda: [(0, 0, 0), (1, 0, 1), (0, 1, 1)]
-        pch, unit = [(0, 0, 0), (1, 0, 1), (0, 1, 1), (1, 1, 0)], (1, 0, 1)
+        pch, unit, mods = [(0, 0, 0), (1, 0, 1), (0, 1, 1), (1, 1, 0)], (1, 0, 1), (0, 0, 2)
     else:
         ch = lambda: [()]
-        pch, unit = [()], ()
+        pch, unit, mods = [()], (), ()
+    cadd = lambda x, y: tuple((a + b) % m if m else a + b for a, b, m in zip(x, y, mods))   # own charge arithmetic
+    cneg = lambda x: tuple((-a) % m if m else -a for a, m in zip(x, mods))
+    zero = tuple(0 for _ in mods)
     rd = lambda n: tuple(int(rs.randint(1, 3)) for _ in range(n))
     legs = []
     for s in (-1, 1, 1, -1):
@@ -1431,28 +1624,35 @@ def eval_double_case(ctx, case):
     B = A if case["same_bra"] else yastn.rand(cfg, legs=legs, dtype=case["dtype"])
     T0 = fpeps.DoublePepsTensor(bra=B, ket=A)
     tag = f"{sym}:fermionic={fer}:op={case['op']}:swaps={case['swaps']}:trans={case['trans']}"
+
+    def rand_op(kind):
+        """random operator on the physical leg: charge-neutral ('n'), lowering ('c') or raising ('cp') by one unit."""
+        if nsym == 0 or kind == "n":
+            return yastn.rand(cfg, legs=[pl, pl.conj()], n=cfg.sym.zero(), dtype=case["dtype"])
+        return yastn.rand(cfg, legs=[pl, pl.conj()], n=(cneg(unit) if kind == "c" else unit), dtype=case["dtype"])
+    # what the object is expected to hold, tracked independently of the object: operator, its charge in units, swaps
+    op_exp, q_exp, swaps_exp = None, 0, {}
     if case["op"] is not None:
-        if nsym == 0:
-            op = yastn.rand(cfg, legs=[pl, pl.conj()], dtype=case["dtype"])
-        elif case["op"] == "n":
-            op = yastn.rand(cfg, legs=[pl, pl.conj()], n=cfg.sym.zero(), dtype=case["dtype"])
-        else:
-            opn = {"U1": (-1,), "Z2": (1,), "U1xU1xZ2": (-1, 0, 1)}[sym]   # charge of an annihilation operator
-            op = yastn.rand(cfg, legs=[pl, pl.conj()], n=opn, dtype=case["dtype"])
-        T0.set_operator_(op)
+        op_exp = rand_op(case["op"])
+        q_exp = 0 if (nsym == 0 or case["op"] == "n") else -1
+        T0.set_operator_(op_exp)
     if nsym:
         for axes in case["swaps"]:
             T0.add_charge_swaps_(unit, axes)
+            for ax in axes:
+                swaps_exp[ax] = cadd(swaps_exp.get(ax, zero), unit)
     f0 = T0.fuse_layers()
-    # independent reference for fuse_layers on dense (non-fermionic, no symmetry) tensors
-    if sym == "dense":
+
+    def dense_reference(op):
         Ak, Ab = A.to_numpy(), B.to_numpy()
-        if case["op"] is not None:
-            Ak = np.einsum("abcds,ts->abcdt", Ak, T0.op.to_numpy())  # tensordot(Ak, op, axes=(phys, 1))
+        if op is not None:
+            Ak = np.einsum("abcds,ts->abcdt", Ak, op.to_numpy())  # tensordot(Ak, op, axes=(phys, 1))
         refd = np.einsum("abcds,ABCDs->aAbBcCdD", Ak, Ab.conj())
         sh = refd.shape
-        refd = refd.reshape(sh[0] * sh[1], sh[2] * sh[3], sh[4] * sh[5], sh[6] * sh[7])
-        err = relerr(f0.to_numpy(), refd)
+        return refd.reshape(sh[0] * sh[1], sh[2] * sh[3], sh[4] * sh[5], sh[6] * sh[7])
+    # independent reference for fuse_layers on dense (non-fermionic, no symmetry) tensors
+    if sym == "dense":
+        err = relerr(f0.to_numpy(), dense_reference(T0.op))
         ctx.count("double:fuse_layers-dense-oracle")
         if not err <= TOL_DOUBLE:
             ctx.fail("oracle", "c11:double:fuse_layers-dense", f"{tag}: fuse_layers() differs from the NumPy einsum of ket and conj(bra), rel err {err:.2e}", case=case, concrete=True)
@@ -1463,52 +1663,114 @@ def eval_double_case(ctx, case):
     if T1.get_legs() != f1.get_legs() or relerr(f1.to_numpy(), r1.to_numpy()) > TOL_DOUBLE:
         ctx.fail("oracle", "c11:double:transpose", f"{tag}: fuse_layers of the transposed tensor != transposed fuse_layers", case=case, concrete=True)
         return
-    lfs = T1.get_legs()
     n_vec = cfg.sym.zero() if (case["nvec"] == 0 or nsym == 0) else unit
     ex = lambda s: (L(s, ch(), rd(len(ch()))))
     l0, l3 = ex(1), ex(-1)
     mk = lambda lg: yastn.rand(cfg, legs=lg, n=n_vec, dtype=case["dtype"])
-    # four corner pairings (pairs of neighbouring legs of T1), each in both argument orders
-    pairs = [((0, 1), [l0, lfs[0].conj(), lfs[1].conj(), l3], (1, 2)),
-             ((1, 2), [lfs[1].conj(), lfs[2].conj(), l3], (0, 1)),
-             ((3, 2), [l0, lfs[3].conj(), lfs[2].conj()], (1, 2)),
-             ((3, 0), [l0, lfs[3].conj(), lfs[0].conj(), l3, l3], (1, 2)),
-             ((1, 0), [l0, lfs[0].conj(), lfs[1].conj(), l3], (2, 1)),
-             ((2, 3), [l0, lfs[3].conj(), lfs[2].conj()], (2, 1))]
-    for axa, lg, axb in pairs:
-        t = mk(lg)
-        if t.size == 0:
-            continue
-        for order in ("self-b", "b-self", "method"):
-            try:
-                if order == "self-b":
-                    got = yastn.tensordot(T1, t, axes=(axa, axb))
-                    ref = yastn.tensordot(r1, t, axes=(axa, axb))
-                elif order == "b-self":
-                    got = yastn.tensordot(t, T1, axes=(axb, axa))
-                    ref = yastn.tensordot(t, r1, axes=(axb, axa))
-                else:
-                    got = T1.tensordot(t, axes=(axa, axb))
-                    ref = r1.tensordot(t, axes=(axa, axb))
-            except (CaseTimeout, MemoryError):
-                raise
-            except Exception as e:
-                ctx.fail("oracle", "c11:double:raises", f"{tag}: tensordot {order} axes {axa},{axb} raised {type(e).__name__}: {e}", case=case, concrete=True)
-                return
-            ctx.count(f"double:corner:{tuple(sorted(T1.trans[a] for a in axa))}:{order}")
-            nr = max(1.0, float(ref.norm()))
-            try:
-                err = float((got - ref).norm()) / nr
-            except (CaseTimeout, MemoryError):
-                raise
-            except Exception:
-                err = float("inf")
-            ctx.extra["max_err_double"] = max(ctx.extra.get("max_err_double", 0.0), err if np.isfinite(err) else 1e300)
+
+    def corners(Tv, rv, which, orders, stage):
+        """lazy contraction of the view Tv vs the contraction of the explicitly fused tensor rv; four corner pairings
+        (pairs of neighbouring legs of Tv), each in both argument orders.  False after a reported failure."""
+        lfs = Tv.get_legs()
+        pairs = [((0, 1), [l0, lfs[0].conj(), lfs[1].conj(), l3], (1, 2)),
+                 ((1, 2), [lfs[1].conj(), lfs[2].conj(), l3], (0, 1)),
+                 ((3, 2), [l0, lfs[3].conj(), lfs[2].conj()], (1, 2)),
+                 ((3, 0), [l0, lfs[3].conj(), lfs[0].conj(), l3, l3], (1, 2)),
+                 ((1, 0), [l0, lfs[0].conj(), lfs[1].conj(), l3], (2, 1)),
+                 ((2, 3), [l0, lfs[3].conj(), lfs[2].conj()], (2, 1))]
+        for axa, lg, axb in [pairs[i] for i in which]:
+            t = mk(lg)
+            if t.size == 0:
+                continue
+            for order in orders:
+                try:
+                    if order == "self-b":
+                        got = yastn.tensordot(Tv, t, axes=(axa, axb))
+                        ref = yastn.tensordot(rv, t, axes=(axa, axb))
+                    elif order == "b-self":
+                        got = yastn.tensordot(t, Tv, axes=(axb, axa))
+                        ref = yastn.tensordot(t, rv, axes=(axb, axa))
+                    else:
+                        got = Tv.tensordot(t, axes=(axa, axb))
+                        ref = rv.tensordot(t, axes=(axa, axb))
+                except (CaseTimeout, MemoryError):
+                    raise
+                except Exception as e:
+                    ctx.fail("oracle", "c11:double:raises", f"{tag}{stage}: tensordot {order} axes {axa},{axb} raised {type(e).__name__}: {e}", case=case, concrete=True)
+                    return False
+                ctx.count(f"double:corner:{tuple(sorted(Tv.trans[a] for a in axa))}:{order}")
+                nr = max(1.0, float(ref.norm()))
+                try:
+                    err = float((got - ref).norm()) / nr
+                except (CaseTimeout, MemoryError):
+                    raise
+                except Exception:
+                    err = float("inf")
+                ctx.extra["max_err_double"] = max(ctx.extra.get("max_err_double", 0.0), err if np.isfinite(err) else 1e300)
+                if not err <= TOL_DOUBLE:
+                    ctx.fail("oracle", "c11:double:tensordot",
+                             f"{tag}{stage}: DoublePepsTensor.tensordot ({order}, axes {axa},{axb}) differs from tensordot of fuse_layers(): rel err {err:.2e}",
+                             case=case, concrete=True)
+                    return False
+        return True
+    if not corners(T1, r1, range(6), ("self-b", "b-self", "method"), ""):
+        return
+    # the same object lives on: mutators in random order; after every step the lazy contraction, the fused form of the
+    # object, and the fused form of a NEW object built from what the object should now hold, must all agree
+    done = []
+    for st in case.get("life", []):
+        do = st["do"]
+        if do == "set_op":
+            kind = st["op"] if nsym else "n"
+            dq = {"n": 0, "c": -1, "cp": 1}[kind]
+            reset = st["reset"] or op_exp is None or abs(q_exp + dq) > 1   # composed operators keep a non-empty charge sector
+            new = rand_op(kind)
+            T0.set_operator_(new, reset=reset)
+            op_exp, q_exp = (new, dq) if reset else (new @ op_exp, q_exp + dq)   # documented: applied after the previous one
+            do = "set_op" if reset else "set_op:compose"
+        elif do == "del_op":
+            do += ":present" if op_exp is not None else ":absent"
+            T0.del_operator_()
+            op_exp, q_exp = None, 0
+        elif do == "add_swaps":
+            if not nsym:
+                continue
+            chg = cneg(unit) if st["neg"] else unit
+            T0.add_charge_swaps_(chg, st["axes"][0] if len(st["axes"]) == 1 else st["axes"])
+            for ax in st["axes"]:
+                swaps_exp[ax] = cadd(swaps_exp.get(ax, zero), chg)
+                if swaps_exp[ax] == zero:
+                    del swaps_exp[ax]
+        elif do == "del_swaps":
+            do += ":present" if swaps_exp else ":absent"
+            T0.del_charge_swaps_()
+            swaps_exp = {}
+        done.append(do)
+        stage = f": after life {done}"
+        ctx.count(f"double:life:{do}")
+        try:
+            fz = T0.fuse_layers()
+            fresh = fpeps.DoublePepsTensor(bra=B, ket=A, op=op_exp, swaps=swaps_exp).fuse_layers()
+            err = float((fz - fresh).norm()) / max(1.0, float(fresh.norm()))
+        except (CaseTimeout, MemoryError):
+            raise
+        except Exception as e:
+            ctx.fail("oracle", "c11:double:raises", f"{tag}{stage}: fuse_layers raised {type(e).__name__}: {e}", case=case, concrete=True)
+            return
+        if not err <= TOL_DOUBLE:
+            ctx.fail("oracle", "c11:double:life-fused",
+                     f"{tag}{stage}: fuse_layers() of the object differs from fuse_layers() of a new DoublePepsTensor holding the same "
+                     f"bra, ket, operator ({'set' if op_exp is not None else 'none'}) and charge swaps {swaps_exp}: rel err {err:.2e}", case=case, concrete=True)
+            return
+        if sym == "dense":
+            err = relerr(fz.to_numpy(), dense_reference(op_exp))
+            ctx.count("double:fuse_layers-dense-oracle")
             if not err <= TOL_DOUBLE:
-                ctx.fail("oracle", "c11:double:tensordot",
-                         f"{tag}: DoublePepsTensor.tensordot ({order}, axes {axa},{axb}) differs from tensordot of fuse_layers(): rel err {err:.2e}",
-                         case=case, concrete=True)
+                ctx.fail("oracle", "c11:double:fuse_layers-dense", f"{tag}{stage}: fuse_layers() differs from the NumPy einsum of ket, operator and conj(bra), rel err {err:.2e}", case=case, concrete=True)
                 return
+        Tv = T0.transpose(axes=tuple(st["trans"]))
+        if not corners(Tv, fz.transpose(axes=tuple(st["trans"])), [st["corner"]], [st["order"]], stage):
+            return
 
 
 def part_double(ctx):
@@ -1606,9 +1868,12 @@ def run(ctx):
     ctx.notes.append(f"yastn imported from {yastn.__file__}")
     ctx.rule = ("(i) every gate constructor x every symmetry variant x {real, imaginary, complex, zero} parameters vs expm of a NumPy JW "
                 "Hamiltonian and vs the Lean closed forms; (ii) random shallow circuits (local / nn both orientations / path / MPO "
-                "gates; MPO objects rescaled, canonised, compressed with/without normalisation, summed, multiplied) on obc lattices up to 6 sites and cylinders, product states with auxiliary charge legs, purifications and "
+                "gates; MPO objects rescaled, canonised, compressed with/without normalisation, summed, multiplied, with/without identity term; "
+                "bare operators without identity term - local, on bonds and along paths - as SVD-split pair, two-site MPO, its two tensors or product form) "
+                "on obc lattices up to 6 sites and cylinders, product states with auxiliary charge legs, purifications and "
                 "random D=2 PEPS without ancilla, dense comparison after every gate; (iii) random DoublePepsTensor contractions "
-                "vs fuse_layers; (iv) sums of circuits' PEPS. A case is non-trivial if it contains at least one gate / contraction; "
+                "vs fuse_layers, continued on the same object through random orders of set/compose/delete operator, add/delete charge swaps "
+                "with lazy == fused == fused form of a new object after every step; (iv) sums of circuits' PEPS. A case is non-trivial if it contains at least one gate / contraction; "
                 "distinct by full JSON description")
     ctx.assumptions += [
         "LAPACK eigh/svd satisfy their contracts (H = U D U^+ with U unitary, G = U S V): validated per case as 'contract', assumed by gate_exp_via_eigh / decompose_reconstructs",
